@@ -206,20 +206,23 @@ func (this *badgerWAL) Save(hardState raftpb.HardState, entries []raftpb.Entry, 
 	batch := this.db.NewWriteBatch()
 	defer batch.Cancel()
 
+	if !etcdRaft.IsEmptySnap(snapshot) {
+		// A received snapshot replaces the whole log. Delete the existing entries
+		// first so that the dummy entry at the snapshot index and the entries of
+		// this batch (written below) survive.
+		if err := this.deleteEntriesFromIndex(batch, 0); err != nil {
+			return err
+		}
+		if err := this.writeSnapshot(batch, snapshot); err != nil {
+			return err
+		}
+		this.cache.Store(cacheLastIndexKey, snapshot.Metadata.Index)
+	}
 	if err := this.writeEntries(batch, entries); err != nil {
 		return err
 	}
 	if err := this.writeHardState(batch, hardState); err != nil {
 		return err
-	}
-	if !etcdRaft.IsEmptySnap(snapshot) {
-		if err := this.writeSnapshot(batch, snapshot); err != nil {
-			return err
-		}
-		// Delete the log
-		if err := this.deleteEntriesFromIndex(batch, 0); err != nil {
-			return err
-		}
 	}
 
 	return batch.Flush()
@@ -267,7 +270,20 @@ func (this *badgerWAL) CreateSnapshot(idx uint64, confState *raftpb.ConfState, d
 }
 
 func (this *badgerWAL) DeleteGroup() error {
-	return this.reset(nil)
+	if err := this.reset(nil); err != nil {
+		return err
+	}
+
+	// The hard state and the snapshot belong to the group as well
+	batch := this.db.NewWriteBatch()
+	defer batch.Cancel()
+	if err := batch.Delete(this.hardStateKey()); err != nil {
+		return err
+	}
+	if err := batch.Delete(this.snapshotKey()); err != nil {
+		return err
+	}
+	return batch.Flush()
 }
 
 func (this *badgerWAL) entryPrefix() []byte {
